@@ -111,6 +111,16 @@ impl Prop for C18 {
                 else if !guards || !inputs { o.oracle_fail = Some(("ffi-frame".into(), format!("C-ABI call modified memory outside [dk, dk+dk_len): guards intact={} inputs intact={}", guards, inputs))); }
             }
         }
+        if k <= 6 && r <= 4 && o.oracle_fail.is_none() {
+            // the definitions generated from src/ffi/src/lib.rs by tools/rs2lean_ffi.py, run on a flat memory laid out like the caller's buffers
+            // (guard bytes, password, salt, guard bytes, output region, guard bytes): the whole memory afterwards must be what the real call leaves
+            let mut mem = vec![0xa5u8; 4]; let pw_off = mem.len(); mem.extend_from_slice(&pw); let salt_off = mem.len(); mem.extend_from_slice(&salt);
+            mem.extend_from_slice(&[0xa5; 4]); let dk_off = mem.len(); mem.extend(std::iter::repeat(0x5au8).take(dk)); mem.extend_from_slice(&[0xa5; 4]);
+            let mut want = mem.clone(); want[dk_off..dk_off + dk].copy_from_slice(&lib);
+            let src = m.ask(&format!("scrypt_ffi_src {} {} {} {} {} {} {} {} {} {}", hexd(&mem), pw_off, pw.len(), salt_off, salt.len(), n, r, p, dk_off, dk));
+            if src != format!("ok {}", hex(&want)) && o.disagreement.is_none() { o.disagreement = Some(format!("the Lean definitions translated from src/ffi/src/lib.rs leave a different memory than the real call (N={}, r={}, p={}, dkLen={}): {}", n, r, p, dk, src.chars().take(160).collect::<String>())); }
+            o.validated += 1; o.tags.push("translated ffi/lib.rs run".into());
+        }
         // line for the OpenSSL cross-check
         o.tags.push(format!("@openssl {} {} {} {} {} {} {}", hexd(&pw), hexd(&salt), n, r, p, dk, hex(&lib)));
         o
